@@ -68,7 +68,8 @@ def size_guard(ctx, tk):
         if t.k == "param" and t.a[0] == "safe_mode":
             return ("safe_mode", True)
         return None
-    forms = Formulas([m, safe])
+    from ..guards import irrelevant_unless, mentions_param
+    forms = Formulas([m, safe], irrelevant=irrelevant_unless(lambda t: mentions_param(t, {f.params[1], f.params[2]})))
     for st in starts:
         check_guard(ctx, "C01.a", f, sinks, forms, lambda A: A[E] or not A["safe_mode"], [E, G, L, "safe_mode"], what,
                     fa=fa, start=st, constraints=cons,
